@@ -348,12 +348,27 @@ def transition_args(draw):
     return dict(expr=draw(st.sampled_from(FOLD_EXPRS)), timezone=ctx_zone, country=None, coords=None, auto_country=draw(flags), auto_timezone=draw(flags), op=op, time=t, end=end)
 
 
+HOLIDAY_EXPRS = ["24/7; PH off", "PH", "Mo-Su 08:00-20:00; PH off", "SH", "PH,SH 10:00-12:00", "PH -1 day 08:00-12:00; PH off", "Mo-Fr 09:00-17:00; SH off \"holidays\""]
+
+
+@st.composite
+def holiday_args(draw):
+    """PH / SH expressions under explicit and inferred countries; windows of weeks, so that several holidays are crossed."""
+    start = draw(st.datetimes(min_value=dt.datetime(2019, 1, 1), max_value=dt.datetime(2029, 1, 1)))
+    op = draw(st.sampled_from(["intervals", "intervals", "next_change", "state"]))
+    end = start + dt.timedelta(days=draw(st.integers(20, 200))) if op == "intervals" else None
+    return dict(expr=draw(st.sampled_from(HOLIDAY_EXPRS)), timezone=draw(st.sampled_from([None, None, "Europe/Paris", "UTC"])),
+                country=draw(st.one_of(st.none(), st.sampled_from(["FR", "DE", "US", "GB", "JP", "NL", "IE", "MX", "DK", "BR", "AU"]), st.sampled_from(COUNTRIES))),
+                coords=draw(st.one_of(st.none(), st.sampled_from(CITIES), st.sampled_from([(52.52, 13.405), (0.0, -30.0), (51.5072, -0.1276), (53.3498, -6.2603)]))),
+                auto_country=draw(flags), auto_timezone=draw(flags), op=op, time=start, end=end)
+
+
 def run(tier):
     n_examples = 1500 if tier == "quick" else 40000
 
     @seed(SEED)
     @settings(max_examples=n_examples, database=None, deadline=None, derandomize=False, suppress_health_check=list(HealthCheck), print_blob=False)
-    @given(args=st.one_of(general_args(), general_args(), sun_args(), transition_args()))
+    @given(args=st.one_of(general_args(), general_args(), general_args(), sun_args(), sun_args(), transition_args(), transition_args(), holiday_args()))
     def prop(args):
         args = dict(args)
         if args["op"] != "intervals":
@@ -363,6 +378,8 @@ def run(tier):
             label("strategy_sun_events_with_coordinates")
         if args["expr"] in FOLD_EXPRS:
             label("strategy_dst_transition")
+        if args["expr"] in HOLIDAY_EXPRS:
+            label("strategy_holidays_country_vs_coords")
         try:
             nontrivial = check_case(args)
         except BaseException as e:  # noqa: BLE001  (PanicException derives from BaseException)
@@ -431,7 +448,7 @@ def run(tier):
             "evaluations": STATS["examples"],
             "distinct_nontrivial": len(STATS["nontrivial"]),
             "oracle_comparisons": STATS["oracle_calls"],
-            "rule": "Hypothesis examples: expression (1500 sentences from the harness generator for this seed + invalid ones) x timezone (None / any zone known to both CPython's zoneinfo and chrono-tz) x country (valid codes, near misses, None) x coords (valid incl. poles and antimeridian, invalid, None) x auto_country / auto_timezone in {None, True, False} x op (state + is_*, next_change, intervals with optional end) x datetime (naive or aware in any zone, fold 0/1; 2018-2032, 1990-2100, year 1..9999 and DST instants); a quarter of the examples come from a sun-event strategy (9 sun expressions x 8 cities x timezone / auto_* combinations) and a quarter from a DST-transition strategy (expressions with bounds inside the repeated or skipped hour of 13 real transitions, zone in the context, in the input, or both): exception class, validate, str, repr (literal_eval), normalize, reparse of str, and the evaluation result are compared with `ohv py-oracle` (Rust core with the documented equivalent context) on (naive local fields, zone key, fold); non-trivial = aware datetime, or a timezone / coords context",
+            "rule": "Hypothesis examples: expression (1500 sentences from the harness generator for this seed + invalid ones) x timezone (None / any zone known to both CPython's zoneinfo and chrono-tz) x country (valid codes, near misses, None) x coords (valid incl. poles and antimeridian, invalid, None) x auto_country / auto_timezone in {None, True, False} x op (state + is_*, next_change, intervals with optional end) x datetime (naive or aware in any zone, fold 0/1; 2018-2032, 1990-2100, year 1..9999 and DST instants); an eighth of the examples come from a holiday strategy (PH / SH expressions x explicit country x coordinates in another country or at sea, windows of 20-200 days), a quarter from a sun-event strategy (9 sun expressions x 8 cities x timezone / auto_* combinations) and a quarter from a DST-transition strategy (expressions with bounds inside the repeated or skipped hour of 13 real transitions, zone in the context, in the input, or both): exception class, validate, str, repr (literal_eval), normalize, reparse of str, and the evaluation result are compared with `ohv py-oracle` (Rust core with the documented equivalent context) on (naive local fields, zone key, fold); non-trivial = aware datetime, or a timezone / coords context",
             "samples": STATS["samples"][:6] or ["(no non-trivial example)"],
             "labels": STATS["labels"],
             "skipped_inputs_without_core_equivalent": STATS["skipped"],
